@@ -144,7 +144,7 @@ def check(ctx):
            'the function itself propagates to the caller', detail)
     # every path that is not the success return raises TimeoutError
     raises = [n for n in cfg.nodes if n.kind == 'stmt' and isinstance(n.ast, ast.Raise)]
-    ok = len(raises) == 1 and norm(raises[0].ast.exc) == 'TimeoutError'
+    ok = bool(raises) and all(norm(r_.ast.exc) in ('TimeoutError', 'TimeoutError()') for r_ in raises)
     rets = guards.return_nodes(cfg)
     falls = [p for p, lab in cfg.exit.pred if not (p.kind == 'stmt' and isinstance(p.ast, ast.Return))]
     ctx.ob(rule, fkey(inner, rule, 'otherwise-timeout'), ok and not falls and len(rets) == 1, inner.where,
